@@ -14,10 +14,11 @@ import (
 // ---- keys ---------------------------------------------------------------------------------------------------------
 
 // Key names. a..d, n1, n2, x are P-256 keys (cheap under -race); r is RSA, e is Ed25519.
-// x is the attacker's key: it is never served.
+// x is the attacker's key: it is never served. f appears only in the "foreign" document that the endpoint sends as the
+// body of some non-200 answers (foreignDocument): nothing from such a body may ever count.
 var keyAlg = map[string]jose.SignatureAlgorithm{
 	"a": jose.ES256, "b": jose.ES256, "c": jose.ES256, "d": jose.ES256,
-	"n1": jose.ES256, "n2": jose.ES256, "x": jose.ES256,
+	"n1": jose.ES256, "n2": jose.ES256, "x": jose.ES256, "f": jose.ES256,
 	"r": jose.RS256, "e": jose.EdDSA,
 }
 
@@ -113,6 +114,17 @@ func document(si int) []byte {
 	}
 	docMem[si] = b
 	return b
+}
+
+// foreignDocument is a well-formed JWKS with a key nobody serves.
+func foreignDocument() []byte {
+	k := key("f")
+	jwk := jose.JSONWebKey{Key: k.Public(), KeyID: "f", Use: "sig", Algorithm: string(k.Alg)}
+	b, err := jwk.MarshalJSON()
+	if err != nil {
+		panic(err)
+	}
+	return []byte(`{"keys":[` + string(b) + `]}`)
 }
 
 // ---- tokens -------------------------------------------------------------------------------------------------------
